@@ -702,10 +702,15 @@ func (m *MapPollard) placeEmptyRoot(prevRootPos uint64) error {
 			if found && v.Hash != empty {
 				m.Nodes.Delete(curPos)
 
+				// Only the leaves are kept in the cached leaves. A full
+				// pollard remembers all the nodes but a node that isn't
+				// cached already is not a leaf.
 				_, cached := m.CachedLeaves.Get(v.Hash)
+				if cached {
+					m.CachedLeaves.Put(v.Hash, pos)
+				}
 				if cached || m.Full {
 					v.Remember = true
-					m.CachedLeaves.Put(v.Hash, pos)
 				}
 				m.Nodes.Put(pos, v)
 			}
@@ -749,8 +754,10 @@ func (m *MapPollard) undoDeletion(proof Proof, hashes []Hash) error {
 		v, found := m.Nodes.Get(sib)
 		if found {
 			_, cached := m.CachedLeaves.Get(v.Hash)
-			if cached || m.Full {
+			if cached {
 				m.CachedLeaves.Put(v.Hash, prevPos)
+			}
+			if cached || m.Full {
 				v.Remember = true
 			}
 
@@ -801,26 +808,24 @@ func (m *MapPollard) undoDeletion(proof Proof, hashes []Hash) error {
 	// Go through all the calculated positions and place them int the accumulator.
 	for i, pos := range newhnp.positions {
 		// If the position is a target, then set the remember to true.
-		remember := false
-		if m.Full {
-			remember = true
-		}
+		isTarget := false
 		for _, target := range proof.Targets {
 			if TreeRows(m.NumLeaves) != m.TotalRows {
 				translated := translatePos(target, TreeRows(m.NumLeaves), m.TotalRows)
 				if pos == translated {
-					remember = true
+					isTarget = true
 				}
 			} else {
 				if pos == target {
-					remember = true
+					isTarget = true
 				}
 			}
 		}
-		m.Nodes.Put(pos, Leaf{Hash: newhnp.hashes[i], Remember: remember})
+		m.Nodes.Put(pos, Leaf{Hash: newhnp.hashes[i], Remember: isTarget || m.Full})
 
-		// Only add it to the cached leaves if remember is true.
-		if remember {
+		// Only the targets are leaves. The other positions are the
+		// calculated parents and must not be added to the cached leaves.
+		if isTarget {
 			m.CachedLeaves.Put(newhnp.hashes[i], pos)
 		}
 	}
@@ -1168,18 +1173,18 @@ func (m *MapPollard) ingest(delHashes []Hash, proof Proof) error {
 	// Ingest the targets and the intermediate positions and their hashes.
 	verifPoint("ingest.beforeputs")
 	for i, pos := range intermediate.positions {
-		remember := false
-		if m.Full {
-			remember = true
-		}
+		isTarget := false
 		for i := range hnp.positions {
 			if hnp.positions[i] == pos {
-				remember = true
+				isTarget = true
 				break
 			}
 		}
-		m.Nodes.Put(pos, Leaf{Hash: intermediate.hashes[i], Remember: remember})
-		if remember {
+		m.Nodes.Put(pos, Leaf{Hash: intermediate.hashes[i], Remember: isTarget || m.Full})
+
+		// Only the targets are leaves. The other positions are the
+		// calculated parents and must not be added to the cached leaves.
+		if isTarget {
 			m.CachedLeaves.Put(intermediate.hashes[i], pos)
 		}
 	}
